@@ -134,6 +134,7 @@ def main(argv):
             elif f.mode == 'stub':
                 fns_assumed.append(ent)
         trusted += ['[%s] %s' % (unit, t) for t in scan_assumptions(a)] + ['[%s] %s' % (unit, t) for t in a.trusted]
+        trusted += ['assumed clause (never proved at the definition): %s#ensures.%s' % (f.item, l.split('.')[-1]) for f in a.fns for l in f.assumed_clauses]
         failed_ids = set()
         for fl in r.failures:
             if pid in fl.tags:
